@@ -35,4 +35,7 @@ def run(check):
     check.run_rule('C09.R3b', lambda c: rm.concile_table(c, c.repo, {'leftwins': 'C09.R3', 'default': 'C09.R1', 'annotation': 'C09.R1'}))
     from ..rules_derived import rule_lazy_iterators
     check.run_rule('C09.R1c', lambda c: rule_lazy_iterators(c, 'C09.R1'))
+    # the fold law: merge(a, b, c) is the left fold of the pairwise step over *every* input, in order
+    from .. import rules_fold
+    check.run_rule('C09.R4f', lambda c: rules_fold.rule_fold(c, 'C09.R4', '_signatures:merge', ('_Merger',), 'merge(a, b, a) == merge(merge(a, b), a)'))
     check.run_rule('C09.R4', lambda c: rm.rule_kind_closure(c, M.merge(), 'C09.R4'))
